@@ -36,13 +36,26 @@ theorem builtin_keys_distinct : strictlySorted (builtin.map fun r => (r.1, r.2.1
 theorem shipped_keys_distinct : strictlySorted (shipped.map fun r => (r.1, r.2.1)) = true := by decide +kernel
 
 /-- **C20 (recognised types)**: every type name is in the generated `FieldTypes` map, or is one of the
-three RFC 6313 structured types, which resolve to `Unknown` on both load paths -/
+three RFC 6313 structured types (basicList 291, subTemplateList 292, subTemplateMultiList 293), which resolve to
+`Unknown` on both load paths: the collector does not interpret structured data and reports such a field as its
+octets.  These elements are always sent variable-length (specifier length 65535); until the F23 repair the decoder
+honoured the marker only for string / octetArray elements, so a data set of a template containing one of them lost
+the whole message — they were excluded from C03's well-formedness predicate for that reason and are inside it now
+(`C03.f23_repaired`; `structured_elements_unknown` below pins how they resolve). -/
 theorem builtin_types_recognised :
     ∀ r ∈ builtin, (fieldTypes.map (·.1)).contains r.2.2.2.2 = true ∨ r.2.2.2.2 ∈ Spec.structuredTypes := by
   decide +kernel
 theorem shipped_types_recognised :
     ∀ r ∈ shipped, (fieldTypes.map (·.1)).contains r.2.2.2 = true ∨ r.2.2.2 ∈ Spec.structuredTypes := by
   decide +kernel
+
+/-- the three structured-data elements are in the decoder's table, keyed by their own ids, with type index 0 (`Unknown`):
+`interpret` returns their octets for every length -/
+theorem structured_elements_unknown :
+    Vflow.lookupElem 0 291 = some (291, 0) ∧ Vflow.lookupElem 0 292 = some (292, 0) ∧
+    Vflow.lookupElem 0 293 = some (293, 0) ∧ ∀ b : Bytes, Vflow.interpret b 0 = .raw b := by
+  refine ⟨by decide +kernel, by decide +kernel, by decide +kernel, fun b => ?_⟩
+  simp [Vflow.interpret, Vflow.minLen, Vflow.isUintT, Vflow.isIntT]
 
 /-- the generated `FieldTypes` map is the registry's type table (names and FieldType indices) -/
 theorem fieldTypes_eq_registry : fieldTypes = Spec.registryTypes := by decide
@@ -87,14 +100,52 @@ theorem minLen_matches_source : ∀ t ∈ List.range 21, genMinLen t = some (toS
 /-- the result kind of the generated `Interpret` switch, per FieldType -/
 def genKind (t : Nat) : Option String := (Gen.InterpretTbl.interpretKind.find? (·.1 = t)).map (·.2)
 
-/-- a probe long enough for every type: `interpret` yields the kind the source switch returns -/
-theorem interpret_kind_matches_source :
-    ∀ t ∈ List.range 21, genKind t = some (Vflow.interpret (List.replicate 16 1) t).kind := by
-  decide
+/-- the helper the over-long branch of the generated `Interpret` (`if len(*b) > t.minLen() { switch t … }`, F24 repair)
+calls for FieldType `t`, if any -/
+def genWide (t : Nat) : Option String := (Gen.InterpretTbl.interpretWide.find? (·.1 = t)).map (·.2)
 
+/-- the result kind the SOURCE gives a field of `n` octets of FieldType `t`, read off the regenerated facts: the guard
+(`minLen`, tied to the generated switch by `minLen_matches_source`), the over-long branch (helper by `interpretWide`;
+both helpers return the octets as they are when there are more than 8 and a 64-bit integer otherwise: their statements
+are pinned in `interpret_wide_matches_source`), the main switch -/
+def srcKind (t n : Nat) : Option String :=
+  if n < Vflow.minLen t then some "raw"
+  else if n > Vflow.minLen t ∧ (genWide t).isSome then
+    (if genWide t = some "wideUint" then some (if n > 8 then "raw" else "u64")
+     else if genWide t = some "wideInt" then some (if n > 8 then "raw" else "i64")
+     else none)
+  else genKind t
+
+/-- every FieldType × every field length 0..20 (shorter than, equal to and longer than every type's size, below and
+above 8 octets): `interpret` yields the kind the source returns -/
+theorem interpret_kind_matches_source :
+    ∀ t ∈ List.range 21, ∀ n ∈ List.range 21,
+      srcKind t n = some (Vflow.interpret (List.replicate n 1) t).kind := by
+  decide +kernel
+
+/-- the statements of `Interpret` in order: guard, over-long branch, switch, final return; `minLen` is one switch -/
 theorem interpret_guard_matches_source :
-    Gen.InterpretTbl.interpretKindOther = ["if len(*b) < t.minLen() { return *b }", "return *b"] ∧
-    Gen.InterpretTbl.minLenOther = [] := by decide
+    Gen.InterpretTbl.interpretKindOther =
+      ["if len(*b) < t.minLen() { return *b }", "if len(*b) > t.minLen() { switch t <interpretWide> }",
+       "switch t <interpretKind>", "return *b"] ∧
+    Gen.InterpretTbl.minLenOther = ["switch t <minLen>"] := by decide
+
+/-- the over-long branch sends exactly the unsigned types to `wideUint` and the signed ones to `wideInt` (the model's
+`isUintT` / `isIntT`), and the two helpers are, statement by statement, what `Vflow.wideUint` / `Vflow.wideInt`
+transcribe; no further function in the file -/
+theorem interpret_wide_matches_source :
+    (∀ t ∈ List.range 21, genWide t =
+      if Vflow.isUintT t then some "wideUint" else if Vflow.isIntT t then some "wideInt" else none) ∧
+    Gen.InterpretTbl.interpretWide.length = 8 ∧
+    Gen.InterpretTbl.wideUintBody =
+      ["func(b []byte) interface{}", "if len(b) > 8 { return b }", "var v uint64",
+       "for _, x := range b { v = v<<8 | uint64(x) }", "return v"] ∧
+    Gen.InterpretTbl.wideIntBody =
+      ["func(b []byte) interface{}", "if len(b) > 8 { return b }", "var v uint64",
+       "for _, x := range b { v = v<<8 | uint64(x) }", "shift := uint(64 - 8*len(b))",
+       "return int64(v<<shift) >> shift"] ∧
+    Gen.InterpretTbl.interpretFuncs = ["Interpret", "wideUint", "wideInt", "minLen"] := by
+  decide +kernel
 
 /-- the FieldType constants the decoder model hard-codes -/
 theorem model_type_constants : typeIndex "string" = Vflow.tString ∧ typeIndex "octetArray" = Vflow.tOctets := by
